@@ -204,6 +204,9 @@ func GenConfig(prop, tier string, seed uint64) Config {
 		if r.Chance(0.3) {
 			c.RetentionMs = c.R * int64(r.Range(1, 6))
 		}
+		if r.Chance(0.3) {
+			c.Crash, c.ImgCap, c.TornMode, c.Queue = true, 8, 0, 0
+		}
 	case "C22":
 		c.FastStart = r.Chance(0.5)
 		c.NSeries = r.Range(3, 8)
